@@ -318,8 +318,8 @@ func (cs *ContractSet) LoadContractFile(path string, importPath string) error {
 				if err != nil {
 					return fmt.Errorf("%s: loop ordinal: %v", where, err)
 				}
-				if f[1] != "invariant" && f[1] != "decreases" {
-					return fmt.Errorf("%s: loop clause must be invariant or decreases", where)
+				if f[1] != "invariant" && f[1] != "decreases" && f[1] != "exit" {
+					return fmt.Errorf("%s: loop clause must be invariant, decreases or exit", where)
 				}
 				cl := &Clause{Kind: f[1], Loop: n, Line: st.line}
 				txt := strings.TrimSpace(f[2])
